@@ -369,4 +369,44 @@ example :
     (exec {} n none false {}).2 = .cont ∧ (mustRun n).map (·.id) = [1, 2, 4, 3] ∧
       ((exec {} n none false {}).1.phases.map (·.id)) = [1, 2, 4, 3] := by decide
 
+/-- PASS means everything declared unconditionally ran and did not fail: if the run's outcome is PASS, every phase the
+    test declares outside branches and subtests and without `run_if` (any depth of sequences and groups, setup, main and
+    teardown parts) has a record, and every record of it is neither FAIL nor (other than the retried timeout of the
+    known finding) ERROR. -/
+theorem c01_pass_means_declared_phases_ran (cfg : Cfg) (hc : 0 < cfg.defaultRepeatLimit) (t : Test)
+    (hpass : outcome cfg t = .pass) :
+    ∀ p ∈ mustRunL t.nodes, ∃ r ∈ (runTest cfg t).phases, r.id = p.id ∧ r.outcome ≠ .fail ∧
+      (r.outcome = .error → r.result = .timeout) := by
+  intro p hp
+  obtain ⟨hnf, hne, _, _, _, hlast⟩ := c01_no_false_pass cfg t hpass
+  suffices h : ∃ r ∈ (runTest cfg t).phases, r.id = p.id by
+    obtain ⟨r, hr, hid⟩ := h
+    exact ⟨r, hr, hid, hnf r hr, hne r hr⟩
+  -- the traversal of the nodes starts from some state `s0` and the run ends with its result + test diagnosers
+  have key : ∀ s0 : St, (runTestDiagnosers (execAb cfg t.nodes none s0).1 t.testDiags).last = none →
+      ∃ r ∈ (runTestDiagnosers (execAb cfg t.nodes none s0).1 t.testDiags).phases, r.id = p.id := by
+    intro s0 hl
+    have hd := runTestDiagnosers_phases (execAb cfg t.nodes none s0).1 t.testDiags
+    have hnone : ¬ (execAb cfg t.nodes none s0).1.last.isSome = true := by
+      intro hs; have := hd.2.1 hs; rw [hl] at this; simp at this
+    have hcont : (execAb cfg t.nodes none s0).2 = .cont :=
+      Ret.not_term (fun ht => hnone (exec_term_last.lAb cfg t.nodes none s0 ht))
+    obtain ⟨r, hr, hid⟩ := c01_declared_phases_accounted_partial.lAb cfg hc t.nodes s0 hcont p hp
+    exact ⟨r, by rw [hd.1]; exact hr, hid⟩
+  have hlast' : (runTest cfg t).last = none := hlast
+  unfold runTest at hlast' ⊢
+  cases hts : t.testStart with
+  | none =>
+    simp only [hts, Bool.false_eq_true, if_false] at hlast' ⊢
+    exact key {} hlast'
+  | some q =>
+    simp only [hts] at hlast' ⊢
+    by_cases hterm : (executePhase cfg q none {}).2.isTerminal = true
+    · simp only [hterm, if_true] at hlast'
+      have := setLast_isSome (executePhase cfg q none {}).1 (executePhase cfg q none {}).2
+      rw [hlast'] at this; simp at this
+    · simp only [hterm, Bool.false_eq_true, if_false] at hlast' ⊢
+      exact key _ hlast'
+
+
 end OpenHTF.Exec
